@@ -43,6 +43,23 @@ std::shared_ptr<BaseFftPlanR> _get_rfft_plan(int n) {
 
 }   // namespace
 
+#ifdef DSPLIB_VERIF
+//verification hook: lengths held by the calling thread's plan caches, most recently used first
+namespace verif {
+thread_local const LRUCache<int, std::shared_ptr<BaseFftPlanC>>* fft_cache_c = nullptr;
+thread_local const LRUCache<int, std::shared_ptr<BaseFftPlanR>>* fft_cache_r = nullptr;
+std::vector<int> fft_cache_keys() {
+    return (fft_cache_c != nullptr) ? fft_cache_c->keys() : std::vector<int>{};
+}
+std::vector<int> rfft_cache_keys() {
+    return (fft_cache_r != nullptr) ? fft_cache_r->keys() : std::vector<int>{};
+}
+int fft_cache_capacity() {
+    return FFT_CACHE_SIZE;
+}
+}   // namespace verif
+#endif
+
 //-------------------------------------------------------------------------------------------------
 std::shared_ptr<BaseFftPlanC> create_fft_plan(int n) {
     //dont cache small fft plans
@@ -52,6 +69,9 @@ std::shared_ptr<BaseFftPlanC> create_fft_plan(int n) {
 
     //TODO: use weak_ptr cache to prevent duplication
     thread_local LRUCache<int, std::shared_ptr<BaseFftPlanC>> cache{FFT_CACHE_SIZE};
+#ifdef DSPLIB_VERIF
+    verif::fft_cache_c = &cache;
+#endif
     if (!cache.exists(n)) {
         auto plan = _get_fft_plan(n);
         cache.put(n, plan);
@@ -66,6 +86,9 @@ std::shared_ptr<BaseFftPlanR> create_rfft_plan(int n) {
     }
 
     thread_local LRUCache<int, std::shared_ptr<BaseFftPlanR>> cache{FFT_CACHE_SIZE};
+#ifdef DSPLIB_VERIF
+    verif::fft_cache_r = &cache;
+#endif
     if (!cache.exists(n)) {
         auto plan = _get_rfft_plan(n);
         cache.put(n, plan);
